@@ -25,13 +25,16 @@ evaluate(prog, args) -> ('ret', value) | ('exc', 'java.lang.ArithmeticException'
 to_java(prog, name) -> Java source of the method (used only by the generator's self test against a real JVM)
 features_used(prog) -> set of AST-level features (incl. the shape features dead_branch, dowhile_kill, const_loop_cond,
                        fallthrough_any, narrow_switch, loop_return, break_in_if, switch_inner_return, deep, narrow_join,
-                       div_zero, narrow_reuse, see programs());
+                       div_zero, narrow_reuse, hoist, see programs());
 narrow_joins(prog) -> set of (kinds, join) e.g. ('BC', 'ifelse'): reads of an int local whose reaching definitions are
                        two or more byte/short/char casts of at least two different kinds (reaching definitions of the AST)
 narrow_reuses(prog) -> set of (kind, join) e.g. ('B', 'if'): casts `(byte|short|char) v` of a local v that some other
                        statement assigns a cast of that same kind, at a point where a reaching definition of v is wider
 div_zeros(prog) -> set of (type, form, use) e.g. ('I', 'lit', 'dead'): divisions / remainders whose divisor is the literal 0
                        ('lit') or a local that only ever holds the constant 0 ('reg'); use: dead arm after_exit self normal inline
+hoists(prog) -> set of (type, at, kill, x, merged, k) e.g. ('I', 'arm', 'between', 'param', 'merged', 2): groups of k single-use
+                       temporaries computed from one variable x in a block and all read in one other block (at: arm else loop
+                       case default join nested), with x assigned again before / between / after the reads or in the first block
 ops_used(prog) -> set of operator names;  nesting(prog) -> '<inner>_in_<parent>' tags;  build_dex(progs) -> DEX bytes
 shrink_candidates(prog) -> list of strictly smaller programs (one-step reductions) for batch shrinking
 descriptor(prog) -> '(IJ)I' ;  arg_tuples(prog, rng, n) -> boundary + random argument tuples
@@ -50,7 +53,7 @@ FEATURES = ('arith', 'divrem', 'bitwise', 'shift', 'ushr', 'neg', 'not', '2addr'
             'while', 'dowhile', 'loop_bottom', 'break', 'nested', 'packed', 'sparse', 'fallthrough',
             'early_return', 'empty_case', 'dead_branch', 'dowhile_kill', 'const_loop_cond',
             'fallthrough_any', 'narrow_switch', 'loop_return', 'break_in_if', 'switch_inner_return', 'deep',
-            'narrow_join', 'div_zero', 'narrow_reuse')
+            'narrow_join', 'div_zero', 'narrow_reuse', 'hoist')
 
 BIN_OPS = ('add', 'sub', 'mul', 'div', 'rem', 'and', 'or', 'xor', 'shl', 'shr', 'ushr')
 OP_FEATURE = {'add': 'arith', 'sub': 'arith', 'mul': 'arith', 'div': 'divrem', 'rem': 'divrem', 'and': 'bitwise',
@@ -68,6 +71,7 @@ CAST_TYPES = {'i2l': (I, J), 'l2i': (J, I), 'i2b': (I, I), 'i2s': (I, I), 'i2c':
 LOWER_FEATURES = ('2addr', 'lit8', 'lit16', 'rsub', 'loop_bottom')      # decided by the lowering, not by the AST
 MAX_REGS = 16
 DZ_PERCENT, NR_PERCENT = 6, 12     # chance per statement slot of the div_zero / narrow_reuse construct (programs())
+HO_PERCENT = 12                    # the same for the hoist construct
 
 
 class Reject(Exception):
@@ -446,6 +450,8 @@ def _shape_features(prog):
         f.add('narrow_reuse')
     if div_zeros(prog):
         f.add('div_zero')
+    if hoists(prog):
+        f.add('hoist')
     return f
 
 
@@ -597,6 +603,244 @@ def _narrow_analysis(prog):
     flags['record'] = True
     block(prog['body'], start, [], ())
     return found, reuse
+
+
+def _reach_defs(prog):
+    """Reaching definitions of the AST. -> {(path of the reading statement, variable): frozenset of definition ids}.
+    A statement is named by its path (index in the body, then arm number / case number / 'd' and index, ..); a definition
+    id is the path of the assigning statement, ('param', i), or the path of a loop + ('init',) / ('inc',) for its counter.
+    The condition of an if / break / loop and the selector of a switch are read at the path of that statement."""
+    reads = {}
+    back = {}
+    flag = {'changed': False}
+    empty = frozenset()
+
+    def merge(states):
+        states = [x for x in states if x is not None]
+        if not states:
+            return None
+        out = {}
+        for x in states:
+            for v, d in x.items():
+                out[v] = out.get(v, empty) | d
+        return out
+
+    def use(vs, st, p):
+        for v in vs:
+            reads[(p, v)] = reads.get((p, v), empty) | st.get(v, empty)
+
+    def define(st, v, d):
+        st = dict(st)
+        st[v] = frozenset([d])
+        return st
+
+    def block(blk, st, brk, path):
+        for i, s in enumerate(blk):
+            if st is None:
+                break
+            p = path + (i,)
+            k = s[0]
+            if k == 'set':
+                use(_vars_of(s[2]), st, p)
+                st = define(st, s[1], p)
+            elif k == 'ret':
+                use(_vars_of(s[1]), st, p)
+                st = None
+            elif k == 'if':
+                use(_cond_vars(s[1]), st, p)
+                st = merge([block(s[2], st, brk, p + (0,)), block(s[3], st, brk, p + (1,))])
+            elif k == 'breakif':
+                use(_cond_vars(s[1]), st, p)
+                brk.append(st)
+            elif k == 'loop':
+                _, kind, cv, bound, step, extra, body = s
+                st = define(st, cv, p + ('init',))
+                head = merge([st, back.get(p)])
+                inner = []
+                if kind == 'while':
+                    use({cv} | (_cond_vars(extra) if extra is not None else set()), head, p)
+                out = block(body, head, inner, p + (0,))
+                if out is not None:
+                    use({cv}, out, p)
+                    out = define(out, cv, p + ('inc',))
+                    if kind == 'dowhile':
+                        use({cv} | (_cond_vars(extra) if extra is not None else set()), out, p)
+                nb = merge([back.get(p), out])
+                if nb != back.get(p):
+                    back[p] = nb
+                    flag['changed'] = True
+                st = merge([head if kind == 'while' else None, out] + inner)
+            elif k == 'switch':
+                use(_vars_of(s[1]), st, p)
+                exits, prev = [], None
+                for j, (keys, cb, ft) in enumerate(s[2]):
+                    o = block(cb, merge([st, prev]), brk, p + (j,))
+                    if ft:
+                        prev = o
+                    else:
+                        prev = None
+                        exits.append(o)
+                exits.append(block(s[3], merge([st, prev]), brk, p + ('d',)))
+                st = merge(exits)
+        return st
+
+    start = {i: frozenset([('param', i)]) for i in range(len(prog['params']))}
+    for _ in range(50):
+        flag['changed'] = False
+        block(prog['body'], start, [], ())
+        if not flag['changed']:
+            return reads
+    raise AssertionError('reaching definitions did not converge')
+
+
+def hoists(prog):
+    """Temporaries hoisted above a branch. -> set of (type, at, kill, x, merged, k), one entry per group of k >= 2 locals
+    t1..tk such that: each is assigned exactly once in the program and read exactly once; their assignments are plain
+    statements of one block B0 with nothing but assignments between them; every one of their expressions reads a common
+    variable x (type 'I'/'J'); and their reads all lie in one other block B1 that is entered through a branch after B0 -
+    at: 'arm' / 'else' (of a later if of B0's statement list), 'loop' (body), 'case' / 'default' (of a switch), 'join'
+    (the statement list of B0 itself, behind an if / switch / loop that follows the assignments), 'nested' (deeper).
+    kill says where x is assigned again relative to the reads when these are statements of one basic block of B1:
+    'between' two of the reads (the statement that holds the first read counts, it assigns after reading), 'before' the
+    first one (inside B1), 'after' the last one, 'b0' (in B0 behind the temporaries), 'none'; 'spread' when the reads
+    are not in one basic block. x: 'param' / 'local'. merged: 'merged' when the new definition of x and a definition that
+    reaches the temporaries both reach some read of x (a decompiler has to keep them in one variable), 'split' when they
+    do not, '-' without a new definition."""
+    body = prog['body']
+    np_ = len(prog['params'])
+    stmts, exprs, conds = [], [], []
+    walk(body, stmts, exprs, conds)
+    nsets, nreads = {}, {}
+    for s, _d in stmts:
+        if s[0] == 'set':
+            nsets[s[1]] = nsets.get(s[1], 0) + 1
+    for e in exprs:
+        if e[0] == 'v':
+            nreads[e[2]] = nreads.get(e[2], 0) + 1
+    counters = _loop_counters(body, set())
+    temps = {v for v, n in nsets.items() if n == 1 and nreads.get(v, 0) == 1 and v >= np_ and v not in counters}
+    if len(temps) < 2:
+        return set()
+    site = {}                  # temporary -> (path of the statement list that holds the reading statement, index in it)
+    lists = {}                 # path of a statement list -> the list
+
+    def nested(s, p):
+        k = s[0]
+        if k == 'if':
+            return [(p + (0,), s[2]), (p + (1,), s[3])]
+        if k == 'loop':
+            return [(p + (0,), s[6])]
+        if k == 'switch':
+            return [(p + (j,), c[1]) for j, c in enumerate(s[2])] + [(p + ('d',), s[3])]
+        return []
+
+    def flat_reads(s):
+        k = s[0]
+        if k == 'set':
+            return _vars_of(s[2])
+        if k in ('ret', 'switch'):
+            return _vars_of(s[1])
+        if k in ('if', 'breakif'):
+            return _cond_vars(s[1])
+        if k == 'loop':
+            return _cond_vars(s[5]) if s[5] is not None else set()
+        return set()
+
+    def index(blk, path):
+        lists[path] = blk
+        for i, s in enumerate(blk):
+            for v in flat_reads(s) & temps:
+                site[v] = (path, i)
+            for p, b in nested(s, path + (i,)):
+                index(b, p)
+    index(body, ())
+    out = set()
+    reach = None
+    for pl in sorted(lists, key=repr):
+        L = lists[pl]
+        i = 0
+        while i < len(L):
+            if not (L[i][0] == 'set' and L[i][1] in temps):
+                i += 1
+                continue
+            j = i
+            while j + 1 < len(L) and L[j + 1][0] == 'set':
+                j += 1
+            run = [(n, L[n][1], _vars_of(L[n][2])) for n in range(i, j + 1) if L[n][1] in temps]
+            nxt = j + 1
+            i = nxt
+            by_block = {}
+            for n, t, vs in run:
+                if t in site:
+                    by_block.setdefault(site[t][0], []).append((n, t, vs))
+            for pb in sorted(by_block, key=repr):
+                grp = by_block[pb]
+                if len(grp) < 2:
+                    continue
+                for x in sorted(set().union(*[vs for _n, _t, vs in grp])):
+                    g = [(n, t) for n, t, vs in grp if x in vs]
+                    if len(g) < 2 or x in temps:
+                        continue
+                    last_def = max(n for n, _t in g)
+                    uses = sorted(site[t][1] for _n, t in g)
+                    B1 = lists[pb]
+                    if pb == pl:
+                        ctl = [n for n in range(last_def + 1, uses[0]) if L[n][0] in ('if', 'switch', 'loop')] if uses[0] > last_def else []
+                        if not ctl:
+                            continue              # the same basic block, or read before (loop-carried)
+                        at, first = 'join', ctl[-1] + 1
+                        b0_end = ctl[0]
+                    elif pb[:len(pl)] == pl and len(pb) >= len(pl) + 2 and isinstance(pb[len(pl)], int) and pb[len(pl)] > last_def:
+                        first = 0
+                        b0_end = pb[len(pl)]
+                        holder = L[b0_end]
+                        if len(pb) > len(pl) + 2:
+                            at = 'nested'
+                        elif holder[0] == 'if':
+                            at = 'arm' if pb[-1] == 0 else 'else'
+                        elif holder[0] == 'loop':
+                            at = 'loop'
+                        else:
+                            at = 'default' if pb[-1] == 'd' else 'case'
+                    else:
+                        continue
+                    kills = set()
+                    kill_paths = []
+                    for n in range(last_def + 1, min(b0_end, nxt)):
+                        if L[n][0] == 'set' and L[n][1] == x:
+                            kills.add('b0')
+                            kill_paths.append(pl + (n,))
+                    if any(B1[n][0] not in ('set', 'ret') for n in range(uses[0], uses[-1] + 1)):
+                        kills.add('spread')
+                    else:
+                        for n in range(first, len(B1)):
+                            if B1[n][0] != 'set' or B1[n][1] != x:
+                                continue
+                            if any(B1[m][0] not in ('set', 'ret') for m in range(min(n, uses[0]), max(n, uses[-1]) + 1)):
+                                continue          # not in the basic block of the reads
+                            kills.add('before' if n < uses[0] else 'between' if n < uses[-1] else 'after')
+                            kill_paths.append(pb + (n,))
+                    merged = '-'
+                    if kill_paths:
+                        if reach is None:
+                            reach = _reach_defs(prog)
+                        src = set()
+                        for n, _t in g:
+                            src |= reach.get((pl + (n,), x), frozenset())
+                        # definitions of x that share a read are one variable (transitively)
+                        groups = [set(d) for (p_, v), d in reach.items() if v == x and d]
+                        comp = set(src)
+                        grew = True
+                        while grew:
+                            grew = False
+                            for d in groups:
+                                if d & comp and not d <= comp:
+                                    comp |= d
+                                    grew = True
+                        merged = 'merged' if any(kp in comp for kp in kill_paths) else 'split'
+                    for kl in sorted(kills) or ['none']:
+                        out.add((prog['locals'][x], at, kl, 'param' if x < np_ else 'local', merged, len(g)))
+    return out
 
 
 def _loop_counters(blk, out):
@@ -1500,6 +1744,19 @@ def programs(features=FEATURES, max_stmts=6):
                          R = R + x; }`). The cast of R goes into the accumulator, another local, R itself (int-to-byte vR, vR)
                          or a return. narrow_reuses(prog) measures it.
     narrow_reuse off     the dedicated construct is not generated
+    hoist on             at most once per program two or three dedicated locals t1..tk (int or long) are computed in one block
+                         from the same variable x by different operators / forms (x op literal, x op y, literal - x, -x, ~x, a
+                         cast of x) and each is read exactly once in ONE later block that is entered through a branch - what
+                         common subexpressions hoisted above a branch compile to:
+                         `t1 = a + 1; t2 = a * 2; if (b > 0) { r = r ^ t1; a -= 7; r += t2; } return r + a;`.
+                         The block of the reads: the arm or the else arm of an if, the body of a loop, a case or the default of a
+                         switch, or the statements behind an if (join). x (a parameter or a plain local, sometimes given a
+                         second definition under an if just before) is assigned again between two of the reads (half of the
+                         time; one time in four that assignment itself reads one of the temporaries: `a = a - t2`), before the
+                         first read, after the last one, in the first block behind the temporaries, or not at all; x is mostly
+                         read again behind the construct, so that its definitions meet. The reads go into the accumulator or
+                         another local. hoists(prog) measures it.
+    hoist off            the dedicated construct is not generated
     """
     from hypothesis import strategies as st
     F = frozenset(features)
@@ -1592,7 +1849,7 @@ def programs(features=FEATURES, max_stmts=6):
     @st.composite
     def program(draw):
         crng_base = draw(st.integers(0, 1 << 30))
-        crng = random.Random(crng_base)         # shape choices of the div_zero / narrow_reuse constructs, see pick()
+        crng = random.Random(crng_base)         # shape choices of the div_zero / narrow_reuse / hoist constructs, see pick()
         nparams = draw(st.integers(1, 3))
         tys = [I, I, I, J] if 'long' in F else [I]
         params = [draw(st.sampled_from(tys)) for _ in range(nparams)]
@@ -1607,10 +1864,11 @@ def programs(features=FEATURES, max_stmts=6):
         hidden = []                    # dedicated locals (narrow joins / reuses, div_zero): read and written only by their construct
         nregs = []                     # those of the narrow joins / reuses
         zero_init = []                 # const-0 locals of div_zero that get their value at the top of the method
-        state = {'budget': draw(st.integers(1, max_stmts)), 'loops': 0, 'nj': 0, 'dz': 0, 'nr': 0}
+        state = {'budget': draw(st.integers(1, max_stmts)), 'loops': 0, 'nj': 0, 'dz': 0, 'nr': 0, 'ho': 0}
         nj_on = 'narrow_join' in F and 'cast_narrow' in F
         nr_on = 'narrow_reuse' in F and 'cast_narrow' in F
         dz_on = 'div_zero' in F and 'divrem' in F
+        ho_on = 'hoist' in F
         nc_base = set(range(nparams)) | ({acc} if use_acc else set())     # never hold a compile-time constant
 
         def readable():
@@ -2146,6 +2404,230 @@ def programs(features=FEATURES, max_stmts=6):
                     out += cast_use(kind2, can_ret)
             return [x for x in out if x is not None]
 
+        def ho_usable(ty, x):
+            """can a value of type ty be consumed: by the accumulator, or by a plain local of that type other than x"""
+            return (use_acc and lift(['v', ty, 0]) is not None) or any(locals_[w] == ty and w != x for w in writable())
+
+        def ho_forms(ty, x):
+            """the ways a temporary is computed from x: (form, operator or cast, type of the temporary)"""
+            fs = []
+            for op in bin_ops:
+                fs.append(('lit', op, ty))
+                if op not in ('div', 'rem'):           # a division only by a literal other than 0: it cannot throw
+                    fs.append(('var', op, ty))
+                if op == 'sub':
+                    fs.append(('rlit', op, ty))
+            for op in un_ops:
+                fs.append(('un', op, ty))
+            if ty == I and 'cast_narrow' in F:
+                fs.append(('cast', None, I))
+            if ty == I and 'cast_i2l' in F and 'long' in F and ho_usable(J, x):
+                fs.append(('cast', 'i2l', J))
+            if ty == J and 'cast_l2i' in F and ho_usable(I, x):
+                fs.append(('cast', 'l2i', I))
+            return fs
+
+        def ho_sources():
+            """the variables the temporaries of a hoist may be computed from"""
+            room = 10 - sum(_sizeof(t_) for t_ in locals_)       # the short forms address 16 registers; expressions need ~6
+            return [x for x in writable() if 2 * _sizeof(locals_[x]) <= room and ho_usable(locals_[x], x)
+                    and len(ho_forms(locals_[x], x)) >= 2]
+
+        def hoist_kinds(loop_depth, self_read, nest_ok):
+            """the blocks that may hold the reads of hoisted temporaries here"""
+            if not ho_on or state['ho'] >= 1 or self_read or not nest_ok or not ho_sources():
+                return []
+            ks = []
+            if 'if' in F:
+                ks += ['arm', 'arm', 'arm', 'join']
+                if 'else' in F:
+                    ks += ['else', 'else']
+            if ('packed' in F or 'sparse' in F) and loop_depth < 2:
+                ks += ['case', 'case']
+            if ('while' in F or 'dowhile' in F) and state['loops'] < 2 and (loop_depth == 0 or 'nested' in F) and loop_depth < 2:
+                ks.append('loop')
+            return ks
+
+        def hoist(jk, nc):
+            """-> statements: [a second definition of x under an if,] the temporaries, [x assigned again,] the statement whose
+            arm / body / case holds the reads (join: followed by the reads), [a read of x]"""
+            state['ho'] += 1
+            xs = ho_sources()
+            kinds_ = sorted({x < nparams for x in xs})
+            is_param = pick(kinds_)
+            x = pick([v for v in xs if (v < nparams) == is_param])
+            ty = locals_[x]
+            me = ['v', ty, x]
+            wops = [op for op in bin_ops if op not in ('div', 'rem')]
+
+            def operand(t_, shift=False):
+                """a literal or a variable other than x (a shift distance is an int)"""
+                if shift:
+                    return ['c', I, 1 + crng.randrange(31 if t_ == I else 63)]
+                vs = [v for v in readable()[t_] if v != x]
+                if vs and coin():
+                    return ['v', t_, pick(vs)]
+                c = draw(const_of(t_))
+                return c if c[2] != 0 else ['c', t_, pick([1, 2, 3, 5, -1, 7, 100])]
+
+            def from_x(form, op, tty):
+                if form == 'lit':
+                    if op in ('shl', 'shr', 'ushr'):
+                        return ['b', ty, op, me, operand(ty, True)]
+                    c = draw(const_of(ty))
+                    if c[2] == 0:
+                        c = ['c', ty, pick([1, 2, 3, 5, -1, 7, 100])]
+                    return ['b', ty, op, me, c]
+                if form == 'rlit':
+                    return ['b', ty, op, draw(const_of(ty)), me]
+                if form == 'var':
+                    if op in ('shl', 'shr', 'ushr'):
+                        vs = [v for v in readable()[I] if v != x]
+                        return ['b', ty, op, me, ['v', I, pick(vs)] if vs else operand(ty, True)]
+                    vs = [v for v in readable()[ty] if v != x]
+                    y = ['v', ty, pick(vs)] if vs else ['c', ty, pick([2, 3, 5, -1, 7, 100])]
+                    return ['b', ty, op, y, me] if y[0] == 'v' and coin(3) else ['b', ty, op, me, y]
+                if form == 'un':
+                    return ['u', ty, op, me]
+                return ['k', tty, op if op is not None else pick(['i2b', 'i2s', 'i2c']), me]
+
+            k = pick([2, 2, 3]) if sum(_sizeof(t_) for t_ in locals_) + 3 * _sizeof(ty) <= 10 else 2
+            forms = ho_forms(ty, x)
+            crng.shuffle(forms)
+            seen_, chosen = set(), []
+            for f_ in forms:                       # different operators / forms
+                if (f_[0] == 'cast' or f_[1] not in seen_) and len(chosen) < k:
+                    chosen.append(f_)
+                    seen_.add(f_[1])
+            if len(chosen) < 2:
+                chosen = forms[:2]
+            temps = []
+            b0 = []
+            for form, op, tty in chosen:
+                e = from_x(form, op, tty)
+                if coin(5):
+                    # a larger expression around it
+                    o = operand(tty)
+                    e2 = combine(tty, e, o)
+                    if x in _vars_of(e2):
+                        e = e2
+                t = len(locals_)
+                locals_.append(tty)
+                hidden.append(t)
+                temps.append((t, tty))
+                b0.append(['set', t, e])
+            crng.shuffle(temps)                    # the order of the reads is independent of the order of the assignments
+
+            def use_stmt(t, tty, sr, nc_):
+                opts = []
+                if use_acc and lift(['v', tty, t]) is not None:
+                    opts += ['acc', 'acc']
+                wr = [w for w in writable() if locals_[w] == tty and w != x]
+                if wr:
+                    opts.append('var')
+                if pick(opts) == 'acc':
+                    return ['set', acc, combine(ret, ['v', ret, acc], lift(['v', tty, t]))]
+                w = pick(wr)
+                if (sr or coin()) and wops:
+                    op = pick(wops)
+                    e = ['b', tty, op, ['v', tty, w], ['v', tty, t]] if op not in ('shl', 'shr', 'ushr') or tty == I else ['v', tty, t]
+                else:
+                    e = combine(tty, ['v', tty, t], draw(expr(tty, readable(), 1)))
+                    if t not in _vars_of(e):
+                        e = ['v', tty, t]
+                return assign(w, e, sr, nc_)
+
+            def kill_stmt(sr, nc_, consume=None):
+                """x is assigned again: from itself (and one of the temporaries), or something else altogether"""
+                if consume is not None and wops:
+                    op = pick([o for o in wops if o not in ('shl', 'shr', 'ushr')] or wops)
+                    if op not in ('shl', 'shr', 'ushr') or ty == I:
+                        return assign(x, ['b', ty, op, me, ['v', ty, consume]], sr, nc_)
+                if (sr or not coin(3)) and wops:
+                    op = pick(wops)
+                    return assign(x, ['b', ty, op, me, operand(ty, op in ('shl', 'shr', 'ushr'))], sr, nc_)
+                return assign(x, draw(expr(ty, readable(), 1)), sr, nc_)
+
+            def reads(sr, nc_, where):
+                """the block of the reads"""
+                blk = [use_stmt(t, tty, sr, nc_) for t, tty in temps]
+                if where == 'between':
+                    j = 1 + crng.randrange(len(temps) - 1)
+                    t, tty = temps[j - 1]
+                    if tty == ty and coin(4):
+                        ks = kill_stmt(sr, nc_, t)
+                        if t in _vars_of(ks[2]):
+                            blk[j - 1] = ks            # the assignment of x is itself the read: x = x - t
+                        else:
+                            blk.insert(j, ks)
+                    else:
+                        blk.insert(j, kill_stmt(sr, nc_))
+                elif where == 'before':
+                    blk.insert(0, kill_stmt(sr, nc_))
+                elif where == 'after':
+                    blk.append(kill_stmt(sr, nc_))
+                if coin(4):
+                    blk.insert(crng.randrange(len(blk) + 1), filler(sr, nc_))
+                if use_acc and not any(s_[0] == 'set' and s_[1] == acc and acc in _vars_of(s_[2]) for s_ in blk):
+                    blk = with_effect(blk)
+                return blk
+
+            def other():
+                return with_effect([filler(False, nc)]) if use_acc else [filler(False, nc)]
+
+            out = []
+            if 'if' in F and coin(3):
+                # x gets a second definition first: the temporaries read a variable whose definitions meet
+                out.append(['if', cond(readable(), 1, 1, nc), with_effect([kill_stmt(False, nc)]), []])
+            where = pick(['between'] * 5 + ['before', 'after', 'b0', 'none'])
+            out += b0
+            if where == 'b0':
+                out.append(kill_stmt(False, nc))
+            if jk in ('arm', 'else'):
+                b1 = reads(False, nc, where)
+                if jk == 'arm':
+                    out.append(['if', cond(readable(), 1, 2, nc), b1, other() if 'else' in F and coin(3) else []])
+                else:
+                    out.append(['if', cond(readable(), 1, 2, nc), other(), b1])
+            elif jk == 'join':
+                out.append(['if', cond(readable(), 1, 2, nc), other(), other() if 'else' in F and coin(3) else []])
+                out += reads(False, nc, where)
+            elif jk == 'case':
+                skind = pick([z for z in ('packed', 'sparse') if z in F])
+                vs = readable()
+                e = draw(expr(I, vs, 1))
+                while e[0] == 'k' and e[2] in NARROW_LETTER:
+                    e = e[3]                       # a byte/short/char selector would restrict the legal case labels
+                if e[0] == 'c':
+                    e = ['v', I, pick(vs[I])] if vs[I] else ['k', I, 'l2i', ['v', J, pick(vs[J])]] if 'cast_l2i' in F else None
+                if e is None:
+                    out.append(['if', cond(readable(), 1, 2, nc), reads(False, nc, where), []])
+                else:
+                    ncase = pick([1, 2, 2, 3])
+                    if skind == 'packed':
+                        first = pick(range(6))
+                        keys = list(range(first, first + ncase))
+                    else:
+                        keys = sorted(crng.sample(range(0, 128), ncase))
+                    slot = crng.randrange(ncase + 1)           # the last slot is the default block
+                    blocks = [reads(False, nc, where) if n == slot else other() for n in range(ncase + 1)]
+                    if slot != ncase and coin():
+                        blocks[ncase] = []
+                    out.append(['switch', e, [[[key], blk_, False] for key, blk_ in zip(keys, blocks)], blocks[ncase], skind])
+            elif jk == 'loop':
+                state['loops'] += 1
+                cv = len(locals_)
+                locals_.append(I)
+                counters.append(cv)
+                lk = pick([z for z in ('while', 'dowhile') if z in F])
+                inner_nc = None if 'const_loop_cond' in F else (nc_base | {cv} | ((nc or set()) - nc_base))
+                extra = cond(readable(), 1, 1, inner_nc) if ('compound' in F and coin(4)) else None
+                sr = lk == 'dowhile' and 'dowhile_kill' not in F
+                out.append(['loop', lk, cv, pick([1, 2, 3, 4]), pick([1, 1, 2]), extra, reads(sr, inner_nc, where)])
+            if use_acc and lift(me) is not None and not coin(3):
+                out.append(['set', acc, combine(ret, ['v', ret, acc], lift(me))])     # the definitions of x meet here
+            return out
+
         def gen_block(loop_depth, in_loop, allow_ret, size, self_read, nc, in_if=False, in_case=False, depth=0):
             """self_read: inside a do-while body with dowhile_kill off. nc: the never-constant variables that conditions
             must read here (None outside loops or when const_loop_cond is on)"""
@@ -2173,15 +2655,18 @@ def programs(features=FEATURES, max_stmts=6):
                 can_ret = allow_ret and loop_depth == 0 and not in_loop and (depth == 0 or 'early_return' in F)
                 nested_ret = can_ret and 'early_return' in F and nest_ok and (not in_case or 'switch_inner_return' in F)
                 nrk = nr_kinds(loop_depth, self_read, nest_ok, nested_ret)
+                hok = hoist_kinds(loop_depth, self_read, nest_ok)
                 k = draw(st.sampled_from(kinds))
-                if (dz_on and state['dz'] < 1) or nrk:
-                    # the rates of these two constructs are set here, independently of the other statement kinds
+                if (dz_on and state['dz'] < 1) or nrk or hok:
+                    # the rates of these three constructs are set here, independently of the other statement kinds
                     reseed(blk)
                     r = crng.randrange(100)
                     if r < DZ_PERCENT and dz_on and state['dz'] < 1:
                         k = 'divzero'
                     elif DZ_PERCENT <= r < DZ_PERCENT + NR_PERCENT and nrk:
                         k = 'nreuse'
+                    elif DZ_PERCENT + NR_PERCENT <= r < DZ_PERCENT + NR_PERCENT + HO_PERCENT and hok:
+                        k = 'hoist'
                 vs = readable()
                 if k == 'njoin':
                     blk += narrow_join(draw(st.sampled_from(njk)), loop_depth, can_ret, nc, depth)
@@ -2191,6 +2676,8 @@ def programs(features=FEATURES, max_stmts=6):
                     blk += narrow_reuse(pick(nrk), can_ret, nc, depth)
                     if not falls(blk):
                         break
+                elif k == 'hoist':
+                    blk += hoist(pick(hok), nc)
                 elif k == 'divzero':
                     blk += [x for x in div_zero(can_ret, nested_ret, self_read, nc, nest_ok) if x is not None]
                     if not falls(blk):
